@@ -48,6 +48,7 @@ type run struct {
 	stuck      bool
 	inTx       bool
 	stalled    map[*simmongo.Pending]int // database commands the simulated database is slow to answer
+	rogueLog   []string                  // scenario runs: outcome of every rogue request
 	restLog    []string                  // scenario runs: outcome of every REST call
 	verHist    map[string][]string       // scenario runs: versions seen in each user document, in order
 	storm      map[string]bool           // clients that re-send a refused request without end: their requests are no longer delivered
@@ -450,6 +451,11 @@ func (r *run) answerCmd(p *simmongo.Pending, faults []MongoFault) {
 				kind = simmongo.FaultErrBefore
 			case "errAfter":
 				kind = simmongo.FaultErrAfter
+			case "errIfInsert":
+				// scenarios: "the insert into the operations collection fails", wherever it comes in the commit
+				if p.Name == "insert" {
+					kind = simmongo.FaultErrBefore
+				}
 			case "partial":
 				if p.Name == "insert" {
 					kind = simmongo.FaultPartial
